@@ -391,7 +391,10 @@ def write_evidence(spec, tier, base_seed, results, wall, n_viol, det_pairs, know
         "wall_s": round(wall, 2),
         "violations": int(n_viol),
     }
-    zero = sorted(k for k, v in probes.items() if v == 0)
+    # probes that count *bad or undecidable* events are expected to stay at zero
+    expect_zero = {"dt_nonpositive_seen", "long_way_round_commanded", "check_nan_raised", "state_poisoned_out_of_domain", "plant_failed",
+                   "not_judged_nonfinite", "setpoint_quat_not_unit", "near_pi_not_judged", "ground_contact"}
+    zero = sorted(k for k, v in probes.items() if v == 0 and k not in expect_zero)
     if zero:
         ev["coverage"]["probes_stuck_at_zero"] = zero
     with open("/root/.vp/EVIDENCE.schema.json") as f:
